@@ -599,9 +599,11 @@ fn main() {
     let stage = ctx.extra.get("stage").cloned().unwrap_or_default();
     let mode = if stage == "san" { Mode::San } else { Mode::Full };
     let mut only: Option<String> = None;
+    let mut only_sig: Option<String> = None;
     if let Some(path) = ctx.replay.clone() {
         match load_replay(&path) {
             Some(j) => {
+                only_sig = j.get("signature").and_then(|s| s.as_str()).map(|s| s.to_string());
                 if let Some(s) = j.get("seed").and_then(|s| s.as_u64()) {
                     ctx.seed = s;
                 }
@@ -643,6 +645,10 @@ fn main() {
             *stats.entry(k).or_insert(0) += v;
         }
         rep.merge(o.rep);
+    }
+    if let Some(sig) = &only_sig {
+        // replay: report the recorded defect only (the shard is re-executed as a whole)
+        rep.violations.retain(|v| v.signature == *sig);
     }
     let mut laws = serde_json::Map::new();
     let mut classes = serde_json::Map::new();
